@@ -38,16 +38,16 @@ pub fn c12_configs(tier: Tier) -> Vec<LCfg> {
     let mut out = Vec::new();
     for mode in [LoopMode::Tokio, LoopMode::Threaded] {
         for keep_alive in [0u16, 2] {
-            for policy in [OfflineQueuePolicy::PreserveAll, OfflineQueuePolicy::PreserveNothing] {
-                if !thorough && keep_alive == 2 && policy == OfflineQueuePolicy::PreserveNothing { continue; }
+            for policy in [OfflineQueuePolicy::PreserveAll, OfflineQueuePolicy::PreserveNothing, OfflineQueuePolicy::PreserveAcknowledged, OfflineQueuePolicy::PreserveQos1PlusPublishes] {
+                if !thorough && (keep_alive == 2 && policy == OfflineQueuePolicy::PreserveNothing || policy == OfflineQueuePolicy::PreserveAcknowledged || policy == OfflineQueuePolicy::PreserveQos1PlusPublishes) { continue; }
                 let mut c = LCfg::base(&format!("{:?}-ka{}-{:?}", mode, keep_alive, policy), mode);
                 c.keep_alive = keep_alive;
                 c.offline = policy;
                 c.requests = vec![Req::Start, Req::Stop, Req::StopDisconnect, Req::Close, Req::Publish];
-                c.max_requests = if thorough { 4 } else { 3 };
-                c.max_attempts = if thorough { 3 } else { 2 };
-                c.budget = if thorough { 3 } else { 2 };
-                c.max_depth = if thorough { 34 } else { 26 };
+                c.max_requests = if thorough { 5 } else { 4 };
+                c.max_attempts = if thorough { 4 } else { 3 };
+                c.budget = if thorough { 4 } else { 3 };
+                c.max_depth = if thorough { 46 } else { 34 };
                 out.push(c);
             }
         }
